@@ -23,6 +23,12 @@ bound `Σ vsize < 2^31 - 1` — `room b` is at most the number of FREE KEYS of e
 index.length = 2^32 - index.length` for UInt32 keys), so a final builder with `1 ≤ room root` holds fewer than `2^32` values
 in every dictionary (`PhysB`: every dictionary has `index.length < 2^32` and a string value builder; `physB_of_room`), and
 `into_array` turns such a state into `physical` arrays (`finish_physical`, `buildArrays_physical`).
+STATUS of that part (`PhysB` … `buildArrays_physical`): NOTHING uses it — no theorem of `Props/C06*.lean`, no other module
+(`Lemmas/C06PhysSize.lean` and `Props/C06Closure.lean` import this file for `physKeysDT` / `to_schema_physKeys` only).  It is
+not wired into `C06_closure` on purpose: its conclusion (`Read.physical` of the built arrays) is `C06_closure_physical`
+under the WEAKER premise `xs.length ≤ 2^63 - 1`, which `C06_closure` derives from its capacity bound
+(`length_le_vsize_sum`); a corollary through `physB_of_room` would restate a proved statement under a stronger hypothesis.
+Kept as an independent second proof of the same fact (it is built and kernel-checked with the file, audited with nothing).
 -/
 namespace SaModel.Lemmas.C06
 open SaModel SaModel.Build SaModel.Spec SaModel.Lemmas.C03 SaModel.Trace
